@@ -82,12 +82,19 @@ type vItem struct {
 	payload string
 }
 
+// vFlagsOnly: items are occurrences of the two flags only and are spelled -f or --ff
+// (deep folds of repeated flags at small cost).
+var vFlagsOnly bool
+
 func vItems(maxN, lp int) []vItem {
 	n := vChoice("n", maxN+1)
 	var items []vItem
 	seenDD := false
 	for i := 0; i < n; i++ {
-		k := vChoice("kind", nItemKinds)
+		k := itFlag
+		if !vFlagsOnly {
+			k = vChoice("kind", nItemKinds)
+		}
 		it := vItem{kind: k}
 		switch k {
 		case itFlag:
@@ -125,7 +132,11 @@ func vSpellingFor(items []vItem, tag string) vSpelling {
 		fold := false
 		switch it.kind {
 		case itFlag:
-			f = vChoice(tag+".form", 4)
+			if vFlagsOnly {
+				f = vChoice(tag+".form", 2)
+			} else {
+				f = vChoice(tag+".form", 4)
+			}
 			fold = vChoice(tag+".fold", 2) == 1
 		case itVal:
 			f = vChoice(tag+".form", 5)
@@ -224,6 +235,7 @@ func vCanonical(items []vItem) vSpelling {
 // canonical spelling; by transitivity any two spellings behave alike.
 func H_respell() {
 	spec := vParamString("spec")
+	vFlagsOnly = vParamInt("flagsOnly") == 1
 	items := vItems(vParamInt("n"), vParamInt("Lp"))
 	s2 := vSpellingFor(items, "s")
 	a1 := vSpell(items, vCanonical(items))
@@ -249,6 +261,7 @@ func H_respell() {
 // C11
 func H_swap() {
 	spec := vParamString("spec")
+	vFlagsOnly = false
 	items := vItems(vParamInt("n"), vParamInt("Lp"))
 	vAssume(len(items) >= 2)
 	j := vChoice("j", len(items)-1)
@@ -266,6 +279,12 @@ func H_swap() {
 	vNoHelp(a1)
 	vNoHelp(a2)
 	cfg := vAppCfg{spec: spec, policy: flag.ContinueOnError}
+	if vParamInt("env") == 1 {
+		// commutation must also hold when options are backed by environment variables
+		cfg.envAll = true
+		vEnvCandidates = 15
+		vSymbolicEnv()
+	}
 	o1 := vRunTable(cfg, a1)
 	o2 := vRunTable(cfg, a2)
 	vObserveArgv("argv1", a1)
@@ -309,6 +328,7 @@ func H_envmono() {
 	// run 1: no variable set
 	off := vRunTable(cfg, argv)
 	// run 2: a symbolic subset set to valid values
+	vEnvCandidates = vParamInt("envmask")
 	set := vSymbolicEnv()
 	on := vRunTable(cfg, argv)
 	vObserveOutcome("off", off)
